@@ -585,11 +585,17 @@ pub fn oracle(c: &EnvCase, obs: &mut Obs) -> Vec<Violation> {
                 if same {
                     continue;
                 }
-                let held = if v.is_empty() {
-                    flag_held(&hj, t)
-                } else {
-                    recognised(&hj, v)
-                };
+                // tags the trailer struct models and its Display writes must survive whatever the
+                // parser made of them (a tag lost while parsing is as lost as one lost while writing);
+                // for the others, "recognised" is decided by what the parsed header holds
+                let modelled = (n == 5 && ["CHK", "TNG", "PDE", "DLM", "MRF", "MAC"].contains(&t.as_str()))
+                    || (n == 3 && B3_TAGS.contains(&t.as_str()));
+                let held = modelled
+                    || if v.is_empty() {
+                        flag_held(&hj, t)
+                    } else {
+                        recognised(&hj, v)
+                    };
                 let present = outp.iter().any(|(a, _)| a == t);
                 if present {
                     out.push(viol(
@@ -754,7 +760,11 @@ pub fn hdr_oracle(c: &HdrCase, obs: &mut Obs) -> Vec<Violation> {
                         format!("C10|direct|block{}|{}|changed", c.kind, t),
                         format!("{:?} displayed as {:?}", c.text, disp),
                     ));
-                } else if (!v.is_empty() && recognised(&hj, &v)) || (v.is_empty() && flag_held(&hj, &t)) {
+                } else if (c.kind == 5 && ["CHK", "TNG", "PDE", "DLM", "MRF", "MAC"].contains(&t.as_str()))
+                    || (c.kind == 3 && B3_TAGS.contains(&t.as_str()))
+                    || (!v.is_empty() && recognised(&hj, &v))
+                    || (v.is_empty() && flag_held(&hj, &t))
+                {
                     out.push(viol(
                         format!("C10|direct|block{}|{}|dropped", c.kind, t),
                         format!("tag {t} read into {} but Display gives {:?}", hj, disp),
